@@ -17,6 +17,20 @@ CHECKS = {
         note=TRUST + "Integer ValueTypes only (group without EXTERNAL/VOID/FLOAT); copy.deepcopy and enum.Flag hosted by CPython.",
         technique="contract-based deductive verification: AST->z3 verification conditions (LIA) on the real functions, "
                   "path-complete symbolic execution, frame/reads clauses, native replay of counter-models"),
+    "C03": dict(
+        category="proof",
+        text="Emission contract eval_RzIL(Cast.il_exec()) == C11 conversion for all source values (bit-vectors) over all type "
+             "pairs and operand classes, the bool->int ITE lowering, conversion chains, and callback contracts for every "
+             "conversion context of the property (explicit cast, usual-arithmetic helper, promotion, initialisation, assignment "
+             "to variable/register, argument, return incl. the caller-side read lemma, store, jump target): result node is "
+             "well-formed, has the sink type and denotes conv_C11(source). Refuted instances on the pinned tree are replayed "
+             "natively and listed as known findings F1/F5/F21.",
+        design_ref="DESIGN.md section 3, C03",
+        note=TRUST + "RZILTransformer.add_op is used through its contract (A-NAMES); child il_read() through the operand "
+             "contract; induction over expression depth (T-IND) is metatheory.",
+        technique="contract-based deductive verification: AST->z3 verification conditions (bit-vector value clauses, ground "
+                  "type/WF clauses) on the real emission functions and transformer callbacks, modular operand contracts, "
+                  "native replay of counter-models"),
 }
 
 NOT_APPLICABLE = {
